@@ -316,3 +316,8 @@ Proof.
   { destruct (xb_stmts xb) as [|x tl]; [done|]. simpl. destruct x as [| | |m v op rhe st| | |]; try done. by destruct rhe. }
   rewrite D, map_map. apply map_ext. apply erase_item.
 Qed.
+
+(* both facts about the lifted graph in one statement (props/C12.v) *)
+Theorem lifted_graph_wf kind params pfile ploc body c :
+  lift_to_ir kind params pfile ploc body = Ok c -> SsaPre.phi_free c = true /\ W.cfg_wf c.
+Proof. intros H. split; [eapply lifted_phi_free|eapply lifted_cfg_wf]; exact H. Qed.
